@@ -77,6 +77,31 @@ pub fn srt_nak(b: &[u8]) -> Vec<u32> {
     out
 }
 
+/// Does the loss list contain a range whose END word has the top bit set? Sequence numbers are 31 bits and the
+/// layout marks only range STARTS with the top bit; what a decoder makes of a flagged end word is outside the
+/// stated layout (treated as unspecified by the C15 differential; totality and the entry bound still apply).
+pub fn nak_has_flagged_range_end(b: &[u8]) -> bool {
+    if b.len() < 8 || ptype(b) != Some(T_SRT_NAK) {
+        return false;
+    }
+    let words = (b.len() - 4) / 4;
+    let mut w = 0usize;
+    while w < words {
+        let v = be32(b, 4 + 4 * w);
+        w += 1;
+        if v & 0x8000_0000 != 0 {
+            if w >= words {
+                break;
+            }
+            if be32(b, 4 + 4 * w) & 0x8000_0000 != 0 {
+                return true;
+            }
+            w += 1;
+        }
+    }
+    false
+}
+
 /// SRTLA ACK: type 0x9100, 4-byte header, then big-endian u32 numbers.
 pub fn srtla_ack(b: &[u8]) -> Vec<u32> {
     let mut out = Vec::new();
